@@ -30,6 +30,12 @@ pub enum Event {
         state: (&'static str, usize, usize, usize),
         out_len: usize,
     },
+    /// One pass of the FIRST-set iteration has ended: did it change anything, and the map after it
+    /// (sorted by nonterminal name, as in `FirstSets`).
+    FirstPass {
+        changed: bool,
+        sets: Vec<(String, Vec<String>, bool)>,
+    },
     /// FIRST sets as computed by `get_first_sets`, sorted by nonterminal name.
     FirstSets(Vec<(String, Vec<String>, bool)>),
     /// The machine builder popped this state index from its work queue.
